@@ -18,7 +18,7 @@ def l2_part(run, exe_unused, results, env):
              ("c11_past", dict(tree=N.T((1, 0, N.NONE)), NN=1, MaxNow=0, progs=[[N.WAIT(1, -1), N.WAIT(1)], [N.NOTIFY(1)]]))]
     ncfgs += [(n, c) for n, (props, t, c) in N.CONF.items() if "C11" in props and (t == "q" or run.tier == "thorough")]
     ncf = [(n, dict(N.note_conf(c), _c=c)) for n, c in ncfgs]
-    l2lib.run_family(run, exe2, "Note", "C11", ncf, lambda conf: N.consts_of(conf["_c"]), {"NoStuck", "RetHonest", "NoDeadRecord"}, {"O-ret", "O-mem", "O-prog", "O-lin"})
+    l2lib.run_family(run, exe2, "Note", "C11", ncf, lambda conf: N.consts_of(conf["_c"]), {"NoStuck", "RetHonest", "NoDeadRecord", "MutexKept"}, {"O-ret", "O-mem", "O-prog", "O-lin"})
     exer = build("h_l2r")
     l2lib.random_runs(run, exer, "Counter", ccfgs, 1000 if run.tier == "quick" else 30000, "C11", {"O-ret", "O-mem", "O-prog", "O-lin"})
     l2lib.random_runs(run, exer, "Note", ncf, 1000 if run.tier == "quick" else 30000, "C11", {"O-ret", "O-mem", "O-prog", "O-lin"})
